@@ -87,6 +87,21 @@ def handleDs (enc declared mode cut bytes : String) (rest : List String) : Strin
     let cfg := cfgOf vm
     let mFlex := (readWithOptions cfg stdDictV dts true cap bs).map fun r => r.out.word
     let mFixed := (readWithOptions cfg stdDictV ts false cap bs).map fun r => r.out.word
+    -- the reader model does not validate the *text* of DA/TM/DT values read in interpreted mode (C12's subject):
+    -- where it predicts a date/time value and the implementation stops with a value error — in BOTH runs, so that
+    -- the property holds on this input — the case is accepted under a signature of its own
+    let temporalRejected (m impl : List String) : Bool :=
+      match impl.getLast? with
+      | some "E:readValue" =>
+        let i := impl.length - 1
+        wordsEq (m.take i) (impl.take i) &&
+          (match (m.drop i).head? with
+           | some w => w.startsWith "V:x:date" || w.startsWith "V:x:time"
+           | none => false)
+      | _ => false
+    if flex = fixed && temporalRejected mFlex flex && temporalRejected mFixed fixed then
+      s!"ok {enc}-{scope}-{firstClass}-same-err-m{mode}-temporal-text-rejected"
+    else
     if !wordsEq mFlex flex then s!"MODEL-DIFF flex {firstDiff 0 mFlex flex}"
     else if !wordsEq mFixed fixed then s!"MODEL-DIFF fixed {firstDiff 0 mFixed fixed}"
     else
